@@ -174,7 +174,7 @@ func (x *Exec) run() (err error) {
 		if isInterface(p.Type()) && len(v.L) == 1 {
 			x.paramTerms[v.L[0].S] = true
 		}
-		if i == 0 && fn.Signature.Recv() != nil && isPointer(p.Type()) {
+		if i == 0 && fn.Signature.Recv() != nil && isPointer(p.Type()) && !(x.ctr != nil && x.ctr.NilReceiver) {
 			st.assume(mkNot(mkEq(v.L[0], tZero)))
 			x.note("pointer receiver assumed non-nil")
 		}
